@@ -85,7 +85,8 @@ fn main() {
             }
             "lkhgeo" => {
                 // Euclidean (irrational) costs between integer grid points: float rounding is part of the input space
-                let pts: Vec<(f64, f64)> = case["pts"].as_array().unwrap().iter().map(|p| (p[0].as_f64().unwrap(), p[1].as_f64().unwrap())).collect();
+                let scale = case["scale"].as_f64().unwrap_or(1.);
+                let pts: Vec<(f64, f64)> = case["pts"].as_array().unwrap().iter().map(|p| (p[0].as_f64().unwrap() * scale, p[1].as_f64().unwrap() * scale)).collect();
                 let n = pts.len();
                 let m: Vec<Vec<f64>> = (0..n).map(|i| (0..n).map(|j| ((pts[i].0 - pts[j].0).powi(2) + (pts[i].1 - pts[j].1).powi(2)).sqrt()).collect()).collect();
                 let nbs: Vec<Vec<usize>> = (0..n)
@@ -101,8 +102,8 @@ fn main() {
                     let cost_in = closed(&path);
                     let outs = lkh_optimize(Adj { m: m.clone(), nbs }, path);
                     json!({ "outs": outs.iter().map(|p| plus1(p)).collect::<Vec<_>>(),
-                            "costInU": (cost_in * 1e6).round() as i64,
-                            "costOutsU": outs.iter().map(|p| (closed(p) * 1e6).round() as i64).collect::<Vec<_>>() })
+                            "costInU": (cost_in / scale * 1e6).round() as i64,
+                            "costOutsU": outs.iter().map(|p| (closed(p) / scale * 1e6).round() as i64).collect::<Vec<_>>() })
                 })
             }
             "db" => {
